@@ -237,7 +237,7 @@ def build_payload(it, version):
             object_type=enums.ObjectType(it["otype"]), unique_identifiers=list(it["uids"]),
             derivation_method=enums.DerivationMethod(it.get("method", 2)),
             derivation_parameters=cattr.DerivationParameters(
-                cryptographic_parameters=some_params(it.get("cp")),
+                cryptographic_parameters=None if it.get("cp") == "absent" else some_params(it.get("cp")),
                 derivation_data=None if it.get("ddata_hex") == "" else hexb(it, "ddata_hex", b"\x01\x02"),
                 initialization_vector=hexb(it, "div_hex", None),
                 salt=hexb(it, "salt_hex", b"salt1234" if it.get("method") in (1, 5) else None),
@@ -775,6 +775,11 @@ class ImplEngine(object):
             if not self.scripted:
                 # hand the recorded backend answers to the model as its oracle
                 for it, rec in zip(req["items"], self._recorded):
+                    if rec is None and it.get("op") == "deriveKey" and it.get("cp") == "absent":
+                        # Derivation Parameters without Cryptographic Parameters are refused by the engine before the
+                        # backend is asked (engine.py _process_derive_key, fix 0982c9e); the engine model has no such
+                        # field in its payload: the refusal is handed to it as the backend's answer
+                        rec = {"k": "kmip", "reason": 7}
                     it["crypto"] = rec
         out = []
         for bi in resp.batch_items:
